@@ -138,6 +138,25 @@ UNITS = {
         ],
         "contracts": ["contracts/request_gen.vc"],
     },
+    "static": {
+        "preludes": ["shims/core.rs", "shims/bytes.rs", "shims/fs.rs"],
+        "specs": ["contracts/spec/hv.rs", "contracts/spec/lookup.rs", "contracts/spec/range.rs", "contracts/spec/static.rs"],
+        "sources": [
+            SYMBOL_SRC,
+            ("src/header/mod.rs", ["struct:Header", "consts:Header"]),
+            ("src/request/mod.rs", ["struct:Request", "struct:Method", "const:METHOD", "fn:Request::get_header:assume"]),
+            ("src/response/mod.rs", ["struct:Response", "struct:StatusCodeReasonPhrase", "struct:ResponseStatusCodeReasonPhrase",
+                                     "const:STATUS_CODE_REASON_PHRASE", "struct:Error"]),
+            ("src/server/mod.rs", ["struct:ConnectionInfo", "struct:Address"]),
+            ("src/url/mod.rs", ["struct:URL", "fn:URL::parse:assume", "fn:URL::is_path_inside_root"]),
+            ("src/range/mod.rs", ["struct:Range", "struct:ContentRange", "consts:Range", "fn:Range::parse_content_range:assume",
+                                  "fn:Range::get_content_range", "fn:Range::get_content_range_list"]),
+            ("src/app/controller/static_resource/mod.rs", ["struct:StaticResourceController", "fn:StaticResourceController::is_matching",
+                                  "fn:StaticResourceController::process", "fn:StaticResourceController::is_matching_request",
+                                  "fn:StaticResourceController::process_request", "fn:StaticResourceController::process_static_resources"]),
+        ],
+        "contracts": ["contracts/request.vc", "contracts/range.vc", "contracts/static.vc"],
+    },
 }
 for k, v in UNITS.items():
     v["name"] = k
